@@ -81,7 +81,7 @@ def ArgsOK (Q : List String → Rule → Prop) (m : TargetsMeta) : TOp → Prop
 
 theorem checkRuleArgs_none {m : TargetsMeta} {n : String} {ids : List String} {t : Int}
     (h : m.checkRuleArgs n ids t = none) :
-    reserved n = false ∧ (∀ p ∈ ids, p ∈ m.ids) ∧ 1 ≤ t ∧ t ≤ (ids.length : Int) := by
+    reserved n = false ∧ (∀ p ∈ ids, p ∈ m.ids) ∧ 1 ≤ t ∧ t ≤ ((dedup ids).length : Int) := by
   unfold TargetsMeta.checkRuleArgs at h
   split at h
   · cases h
@@ -327,13 +327,14 @@ theorem argsOK_struct (m : TargetsMeta) (op : TOp) : ArgsOK RuleStruct m op := b
     rw [hp] at hpm
     exact hdef p (mem_dedup.1 hpm)
 
-theorem argsOK_ok (m : TargetsMeta) (op : TOp) (hnd : op.NoDupArgs) : ArgsOK RuleOK m op := by
+/-- an accepted AddRule/UpdateRule writes a fully well-formed rule, whatever the argument list looks
+like: the threshold was compared with the size of exactly the set that is stored -/
+theorem argsOK_ok (m : TargetsMeta) (op : TOp) : ArgsOK RuleOK m op := by
   cases op <;> try trivial
   all_goals
     intro hc r hn hp ht
     obtain ⟨_, hdef, h1, h2⟩ := checkRuleArgs_none hc
-    have hd := dedup_of_nodup hnd
-    refine ⟨hn, by omega, by rw [hp, hd, ht]; exact h2, by rw [hp]; exact nodup_dedup _, ?_⟩
+    refine ⟨hn, by omega, by rw [hp, ht]; exact h2, by rw [hp]; exact nodup_dedup _, ?_⟩
     intro p hpm
     rw [hp] at hpm
     exact hdef p (mem_dedup.1 hpm)
